@@ -250,6 +250,10 @@ func load(path string) (kind string, h *c06.History, sc *schedCase, err error) {
 		sc = &schedCase{}
 		err = json.Unmarshal(raw, sc)
 		return "sched", nil, sc, err
+	case "seqx":
+		var s seqxCase
+		err = json.Unmarshal(raw, &s)
+		return "seqx", s.History, nil, err
 	case "seq":
 		var s seqCase
 		err = json.Unmarshal(raw, &s)
